@@ -41,6 +41,9 @@ func BuffaloRenderer(input string, data map[string]interface{}, helpers map[stri
 		return "", err
 	}
 
+	if data == nil {
+		data = map[string]interface{}{}
+	}
 	for k, v := range helpers {
 		data[k] = v
 	}
